@@ -57,13 +57,15 @@ type simNet struct {
 	// armed outage: when router from next expresses an advertisement fetch towards to, the link is cut at that moment
 	// (the Data of that fetch is lost) and comes back at the given later time
 	armed *outage
+	// clean: no loss, no held-back Data (scripted histories: the scripted fault is the only disturbance)
+	clean bool
 }
 
 type outage struct {
 	from, to int
-	length   time.Duration
 	fired    bool
 	at       time.Time
+	fetches  []time.Time // when the requester expressed (re-)fetches towards the other end during the outage
 }
 
 const protoEventBudget = 120000
@@ -109,6 +111,9 @@ func (n *simNet) count(k string) {
 func (n *simNet) lost() bool {
 	n.mu.Lock()
 	defer n.mu.Unlock()
+	if n.clean {
+		return false
+	}
 	return n.r.Intn(100) < 10
 }
 
@@ -117,7 +122,7 @@ func (n *simNet) lost() bool {
 func (n *simNet) dataDelay() time.Duration {
 	n.mu.Lock()
 	defer n.mu.Unlock()
-	if n.r.Intn(100) < 20 {
+	if !n.clean && n.r.Intn(100) < 20 {
 		n.stats["data-held-back"]++
 		return time.Duration(300+n.r.Intn(3600)) * time.Millisecond
 	}
@@ -303,18 +308,17 @@ func (e *simEngine) Express(interest *ndn.EncodedInterest, cb ndn.ExpressCallbac
 			}
 		}
 		n.mu.Lock()
-		if o := n.armed; o != nil && !o.fired && o.from == e.idx && o.to == to && n.link[lkey(o.from, o.to)] {
-			// the outage begins exactly now: this fetch and everything after it on the link is lost
-			o.fired = true
-			o.at = time.Now()
-			delete(n.link, lkey(o.from, o.to))
-			n.stats["outage"]++
-			a, b, l := o.from, o.to, o.length
-			time.AfterFunc(l, func() {
-				n.mu.Lock()
-				n.link[lkey(a, b)] = true
-				n.mu.Unlock()
-			})
+		if o := n.armed; o != nil && o.from == e.idx && o.to == to {
+			if !o.fired && n.link[lkey(o.from, o.to)] {
+				// the outage begins exactly now: this fetch and everything after it on the link is lost
+				o.fired = true
+				o.at = time.Now()
+				delete(n.link, lkey(o.from, o.to))
+				n.stats["outage"]++
+			}
+			if o.fired {
+				o.fetches = append(o.fetches, time.Now())
+			}
 		}
 		nackIt := false
 		if n.cold && to >= 0 {
@@ -506,18 +510,16 @@ func (p *protoWorld) quietRun() {
 // expresses the fetch — at that moment the link goes away (the fetch is lost, retries time out).  The link stays away for
 // longer than the dead interval, and comes back BEFORE i's next dead sweep; j's sequence number has not changed, so its
 // Sync Interests are "nothing changed" for i: only the retry chain of the lost fetch can bring j's advertisement.
-func (p *protoWorld) awkwardOutage(r *rand.Rand, edges [][2]int) {
+// Everything is derived from virtual time observed inside the bubble: the phase of i's sweep ticker (started at Start()),
+// the moment the fetch was expressed, and the period of its retries.
+// x >= 0: the change of j is "its neighbour x is gone for good" (one single change of j's table); x < 0: some change.
+func (p *protoWorld) awkwardOutage(r *rand.Rand, i, j, x int) bool {
 	D := time.Duration(p.cfgD) * time.Millisecond
-	if D < 20*time.Second || len(edges) == 0 {
-		return // needs several fetch-retry periods (4.1 s) between the dead-interval expiry and the sweep
-	}
-	e := edges[r.Intn(len(edges))]
-	i, j := e[0], e[1]
-	if r.Intn(2) == 0 {
-		i, j = j, i
+	if D < 20*time.Second {
+		return false // needs several fetch-retry periods (4.1 s) between the dead-interval expiry and the sweep
 	}
 	if p.rt[i] == nil || p.rt[j] == nil || !p.net.linked(i, j) {
-		return
+		return false
 	}
 	// phase of i's sweep ticker: sweeps at started[i] + k*D.  Start the outage at offset u in (2 s, D/2): the sweep inside
 	// the outage sees a silence < D, the next one comes D - u after the dead-interval expiry.
@@ -529,48 +531,94 @@ func (p *protoWorld) awkwardOutage(r *rand.Rand, edges [][2]int) {
 	}
 	time.Sleep(wait)
 	if p.rt[i] == nil || p.rt[j] == nil || !p.net.linked(i, j) {
-		return
+		return false
 	}
-	// the link comes back after the dead interval has expired and at least one retry of the lost fetch was due
-	back := D + 5*time.Second + time.Duration(r.Int63n(int64(D-u-7*time.Second)))
+	o := &outage{from: i, to: j}
 	p.net.mu.Lock()
-	p.net.armed = &outage{from: i, to: j, length: back}
+	p.net.armed = o
 	p.net.mu.Unlock()
-	// j's table changes now (it loses or gains another neighbour): new sequence number, announced to i
-	changed := false
-	for x := 0; x < p.n && !changed; x++ {
-		if x == i || x == j || p.rt[x] == nil {
-			continue
-		}
+	// j's table changes now: new sequence number, announced to i, which fetches — and the link is cut at that moment
+	if x >= 0 {
 		p.net.mu.Lock()
-		if p.net.link[lkey(j, x)] {
-			p.net.mu.Unlock()
-			if p.rt[j].Vf18ExpireNeighbor(p.names[x]) {
-				p.rt[j].Vf18CheckDead() // j declares x dead at once (x re-appears with its next heartbeat)
+		delete(p.net.link, lkey(j, x)) // x is gone for good: exactly one change of j's table
+		p.net.mu.Unlock()
+		if p.rt[j].Vf18ExpireNeighbor(p.names[x]) {
+			p.rt[j].Vf18CheckDead()
+		}
+	} else {
+		changed := false
+		for y := 0; y < p.n && !changed; y++ {
+			if y == i || y == j || p.rt[y] == nil {
+				continue
+			}
+			p.net.mu.Lock()
+			if p.net.link[lkey(j, y)] {
+				delete(p.net.link, lkey(j, y))
+				p.net.mu.Unlock()
+				if p.rt[j].Vf18ExpireNeighbor(p.names[y]) {
+					p.rt[j].Vf18CheckDead()
+					changed = true
+				}
+			} else {
+				p.net.link[lkey(j, y)] = true
+				p.net.mu.Unlock()
 				changed = true
 			}
-		} else {
-			p.net.link[lkey(j, x)] = true
-			p.net.mu.Unlock()
-			changed = true
 		}
 	}
-	time.Sleep(back + 2*time.Second)
+	time.Sleep(2 * time.Second)
 	p.net.mu.Lock()
-	if p.net.armed != nil && !p.net.armed.fired {
-		p.net.armed = nil // j's change did not make i fetch: nothing happened
-	}
+	fired, t0 := o.fired, o.at
 	p.net.mu.Unlock()
+	if !fired {
+		p.net.mu.Lock()
+		p.net.armed = nil // j's change did not make i fetch: nothing happened
+		p.net.mu.Unlock()
+		return false
+	}
+	// wait until the dead interval has expired for j at i (its last Sync Interest arrived just before t0)
+	time.Sleep(time.Until(t0.Add(D + 200*time.Millisecond)))
+	// the retry period of the lost fetch, as observed; the first retry check after the expiry is due one period after the
+	// last observed attempt (a correct router expresses it; one that gives up expresses nothing more)
+	p.net.mu.Lock()
+	ts := append([]time.Time{}, o.fetches...)
+	p.net.mu.Unlock()
+	period := 4110 * time.Millisecond
+	if len(ts) >= 3 {
+		period = ts[len(ts)-1].Sub(ts[len(ts)-2])
+	}
+	last := t0
+	if len(ts) > 0 {
+		last = ts[len(ts)-1]
+	}
+	due := last.Add(period)
+	for due.Before(time.Now()) {
+		due = due.Add(period)
+	}
+	back := due.Add(1500 * time.Millisecond)
+	// i's next sweep
+	k := time.Since(p.started[i])/D + 1
+	nextSweep := p.started[i].Add(time.Duration(k) * D)
+	if !back.Before(nextSweep.Add(-500 * time.Millisecond)) {
+		back = nextSweep.Add(-500 * time.Millisecond)
+	}
+	time.Sleep(time.Until(back))
+	p.net.mu.Lock()
+	p.net.link[lkey(i, j)] = true
+	p.net.armed = nil
+	p.net.stats["outage-ended-before-sweep"]++
+	p.net.mu.Unlock()
+	return true
 }
 
-func runProtoCase(t *testing.T, out *bufio.Writer, r *rand.Rand, k int, n int, edges [][2]int, phases int) (string, map[string]int) {
+func runProtoCase(t *testing.T, out *bufio.Writer, r *rand.Rand, k int, n int, edges [][2]int, phases int, script string) (string, map[string]int) {
 	fail := ""
 	var stats map[string]int
 	synctest.Test(t, func(t *testing.T) {
 		p := &protoWorld{}
 		p.t, p.w, p.r, p.n = t, out, r, n
 		p.byHash = map[uint64]int{}
-		nested := k%3 == 1 // hierarchical router names: one name a proper prefix of another
+		nested := k%3 == 1 && script == "" // hierarchical router names: one name a proper prefix of another
 		for len(p.names) < n {
 			str := fmt.Sprintf("/net/r%d", r.Intn(1000000))
 			if nested && len(p.names) > 0 && r.Intn(4) != 0 {
@@ -589,9 +637,16 @@ func runProtoCase(t *testing.T, out *bufio.Writer, r *rand.Rand, k int, n int, e
 		} else {
 			p.cfgS, p.cfgD = 1000, 2000 + uint64(r.Intn(3))*1000
 		}
+		switch script {
+		case "outage30":
+			p.cfgS, p.cfgD = 5000, 30000
+		case "outage45":
+			p.cfgS, p.cfgD = 10000, 45000
+		}
 		p.net = &simNet{r: rand.New(rand.NewSource(r.Int63())), eng: make([]*simEngine, n), link: map[[2]int]bool{},
-			names: p.names, stats: map[string]int{}, cold: k%5 < 2, nacked: map[*simEngine]map[int]bool{}}
-		if k%2 == 0 { // wide latency variation of Sync Interests, still below (dead - sync)
+			names: p.names, stats: map[string]int{}, cold: k%5 < 2 && script == "", nacked: map[*simEngine]map[int]bool{},
+			clean: script != ""}
+		if k%2 == 0 && script == "" { // wide latency variation of Sync Interests, still below (dead - sync)
 			j := (p.cfgD - p.cfgS) / 2
 			if j > 500 {
 				j = 500
@@ -623,12 +678,29 @@ func runProtoCase(t *testing.T, out *bufio.Writer, r *rand.Rand, k int, n int, e
 		time.Sleep(settle)
 		p.check(settle)
 		p.quietRun()
+		if script != "" {
+			// scripted history on the line 0 - 1 - 2: router 1 loses router 0 for good (its single table change), router 2
+			// hears the new sequence number, and the link 1 - 2 is away from that fetch until after the dead interval
+			if !p.awkwardOutage(r, 2, 1, 0) {
+				p.fail = "scripted outage did not take place"
+			}
+			time.Sleep(settle)
+			p.check(settle)
+			phases = 0
+		}
 		for ph := 0; ph < phases; ph++ {
 			nf := 1 + r.Intn(3)
 			for q := 0; q < nf; q++ {
 				switch r.Intn(8) {
 				case 7:
-					p.awkwardOutage(r, edges)
+					if len(edges) > 0 {
+						e := edges[r.Intn(len(edges))]
+						a, b := e[0], e[1]
+						if r.Intn(2) == 0 {
+							a, b = b, a
+						}
+						p.awkwardOutage(r, a, b, -1)
+					}
 				case 6: // a freshly started router makes many table changes within a few seconds and is restarted at
 					// once (fresh NewRouter, same name) with one link fewer: its neighbours still hold its state and
 					// must notice the new incarnation by its sequence number
@@ -748,19 +820,31 @@ func TestProto(t *testing.T) {
 	defer out.Flush()
 	r := rand.New(rand.NewSource(seed*7919 + 13))
 	total := map[string]int{}
+	// scripted histories first, whatever the budget: the awkward outage with 30 s and 45 s dead intervals
+	for q, script := range []string{"outage30", "outage45"} {
+		msg, st := runProtoCase(t, out, r, 1000+q, 3, [][2]int{{0, 1}, {1, 2}}, 0, script)
+		if msg != "" {
+			fmt.Fprintf(out, "harnessfail %d %s\n", 1000+q, msg)
+		}
+		for a, b := range st {
+			total[a] += b
+		}
+		out.Flush()
+	}
 	for k := 0; k < n && protoOverruns < 6; k++ {
 		nn := 2 + r.Intn(5)
 		edges := randomConnected(r, nn)
 		if k%2 == 1 && nn >= 4 {
 			edges = randomSparse(r, nn)
 		}
-		msg, st := runProtoCase(t, out, r, k, nn, edges, 2+r.Intn(2))
+		msg, st := runProtoCase(t, out, r, k, nn, edges, 2+r.Intn(2), "")
 		if msg != "" {
 			fmt.Fprintf(out, "harnessfail %d %s\n", k, msg)
 		}
 		for a, b := range st {
 			total[a] += b
 		}
+		out.Flush() // a run cut short by the wall clock keeps its completed cases
 	}
 	keys := []string{}
 	for a := range total {
